@@ -33,6 +33,8 @@ var gridNames = map[string]func() []group{
 	"grid-regex":     gridRegex,
 	"grid-interact":  gridInteract,
 	"grid-big":       gridBig,
+	"grid-bigcore":   gridBigCore,
+	"grid-bigpoll":   gridBigPoll,
 }
 
 func isGrid(name string) bool { _, ok := gridNames[name]; return ok }
@@ -804,6 +806,122 @@ func gridBig() []group {
 		for _, t := range []string{"$.**{last}", "$.** ? (@ == 1)", "$.**.type()", "$.**{2 to 3}", "$.** == 2", "exists($.**{last})"} {
 			add(t, d, nil)
 		}
+	}
+	return gs
+}
+
+// gridBigCore is the part of grid-big that sits exactly on the sizes where a long-input shortcut
+// would start (64, 128, 256, 1024, 4096 and 10000 items, results of exactly k*4096 items, 1,024
+// operand pairs): small enough to run whole on every change.
+func gridBigCore() []group {
+	seq := func(n int, f func(i int) any) []any {
+		out := make([]any, n)
+		for i := range out {
+			out[i] = f(i)
+		}
+		return out
+	}
+	num := func(i int) any { return float64(i) }
+	var gs []group
+	add := func(t string, d any, v map[string]any) {
+		gs = append(gs, group{t, d, v}, group{"strict " + t, d, v})
+	}
+	// unary operators over 64 and more items, twice in one path and in adjacent calls
+	for _, n := range []int{64, 100, 257} {
+		add("-$[*]", seq(n, num), nil)
+		add("+$[*]", seq(n, func(i int) any { return float64(7000 + i) }), nil)
+	}
+	ab := map[string]any{"a": seq(80, num), "b": seq(80, func(i int) any { return float64(i + 500) })}
+	add("-$.a[*] == -$.b[*]", ab, nil)
+	add("-$.a[*] < +$.b[*]", ab, nil)
+	add("$ ? (-@.a[*] == -@.b[*])", ab, nil)
+	// positions 1023, 2047, ... of long arrays
+	for _, n := range []int{1024, 1025, 2048, 3000} {
+		arr := seq(n, num)
+		for _, t := range []string{"$[1023]", "$[last]", "$[0 to last]", "$[5, 1023, 7]", "$[1020 to 1026]", "$[last - 1 to last]"} {
+			add(t, arr, nil)
+		}
+	}
+	// results of exactly 4096 and 8192 items
+	for _, n := range []int{4095, 4096, 8192} {
+		add("$[*]", seq(n, num), nil)
+		add("$[*] ? (@ >= 0)", seq(n, num), nil)
+	}
+	rows := func(n int) []any {
+		return seq(n, func(i int) any {
+			return map[string]any{"id": float64(i), "tags": []any{float64(i), float64(i + 1)}, "m": map[string]any{"b": float64(i % 3)}}
+		})
+	}
+	add("$[*].tags[*]", rows(2048), nil)
+	add("$[*].id", rows(4096), nil)
+	// more than 10000 elements whose filter leaves the element early
+	big := rows(10050)
+	add("$[*] ? (exists(@.tags[*]))", big, nil)
+	add("$[*] ? (exists(@.m.*))", big, nil)
+	add("$[*] ? (@.m.*.b == 1).id", big, nil)
+	// objects with 128 and more members
+	for _, n := range []int{127, 128, 300} {
+		obj := map[string]any{}
+		for i := 0; i < n; i++ {
+			obj[fmt.Sprintf("k%05d", i)] = float64(i)
+		}
+		for _, t := range []string{"$.keyvalue().key", "$.keyvalue().value", "$.*", "$.k00063"} {
+			add(t, obj, nil)
+		}
+	}
+	// 1,024 operand pairs with integers beyond 2^53 that share a float64; 31 x 31 as the control
+	bigs := func(base int64, n int) []any { return seq(n, func(i int) any { return base + int64(2*i) }) }
+	for _, d := range []any{
+		map[string]any{"a": bigs(9007199254740993, 32), "b": bigs(9007199254740992, 32)},
+		map[string]any{"a": bigs(9007199254740993, 31), "b": bigs(9007199254740992, 31)},
+		map[string]any{"a": seq(40, func(i int) any { return json.Number(fmt.Sprint(9007199254740993 + int64(2*i))) }), "b": bigs(9007199254740992, 32)},
+		map[string]any{"a": bigs(9007199254740993, 1024), "b": []any{int64(9007199254740992 + 4000)}},
+	} {
+		for _, t := range []string{"$.a[*] == $.b[*]", "$.a[*] != $.b[*]", "$.a[last] > $.b[last]", "$.a[last] == $.b[last]", "$.a[*] ? (@ == $.b[*])", "!($.a[*] == $.b[*])"} {
+			add(t, d, nil)
+		}
+	}
+	allowed := seq(1100, func(i int) any { return int64(4611686018427387904) + int64(28672+2*i) })
+	ids := []any{map[string]any{"id": int64(4611686018427387904 + 28673)}, map[string]any{"id": int64(4611686018427387904 + 28672)}, map[string]any{"id": int64(7)}}
+	add("$[*] ? (@.id == $allowed[*])", ids, map[string]any{"allowed": allowed})
+	add("$[*] ? (!(@.id == $allowed[*]))", ids, map[string]any{"allowed": allowed})
+	// long operand sequences without an early decision (polls inside a comparison loop)
+	thousand := map[string]any{"a": seq(1000, num), "s": seq(600, func(i int) any { return fmt.Sprint("s", i) })}
+	for _, t := range []string{"$.a[*] == -1", "exists($ ? (@.a[*] == -1))", "$.s[*] starts with \"zz\"", "$.s[*] like_regex \"^zz\"", "($.a[*] == -1) is unknown"} {
+		add(t, thousand, nil)
+	}
+	return gs
+}
+
+// gridBigPoll: long loops that finish without an early decision, for the cancellation stream
+// (a poll added inside such a loop shows at the sampled late poll indexes).
+func gridBigPoll() []group {
+	seq := func(n int, f func(i int) any) []any {
+		out := make([]any, n)
+		for i := range out {
+			out[i] = f(i)
+		}
+		return out
+	}
+	num := func(i int) any { return float64(i) }
+	var gs []group
+	add := func(t string, d any, v map[string]any) {
+		gs = append(gs, group{t, d, v}, group{"strict " + t, d, v})
+	}
+	thousand := map[string]any{"a": seq(1000, num), "s": seq(600, func(i int) any { return fmt.Sprint("s", i) })}
+	for _, t := range []string{"$.a[*] == -1", "exists($ ? (@.a[*] == -1))", "$.s[*] starts with \"zz\"", "$.s[*] like_regex \"^zz\"", "($.a[*] == -1) is unknown", "-$.a[*]", "$.a[0 to last]", "$.a[*]", "$.a.**", "$.a[*] ? (@ < 0)", "$.a[*].type()", "$.a[*] + 1 == 0"} {
+		add(t, thousand, nil)
+	}
+	arr := seq(3000, num)
+	for _, t := range []string{"$[0 to last]", "$[*]", "$[1020 to 2050]", "$.**{1}", "-$[*]", "$[*] ? (@ == $[last])"} {
+		add(t, arr, nil)
+	}
+	obj := map[string]any{}
+	for i := 0; i < 300; i++ {
+		obj[fmt.Sprintf("k%05d", i)] = float64(i)
+	}
+	for _, t := range []string{"$.*", "$.keyvalue().key", "$.* ? (@ < 0)"} {
+		add(t, obj, nil)
 	}
 	return gs
 }
